@@ -245,6 +245,11 @@ func suiteSched(o *suiteOut, r *rng, tier string, n int) {
 		"currentfile eexec", "currentfile eexec ab", "currentfile eexec abc", "currentfile eexec \x01\x02\x03", "1 >x 2 >> 3 >", "1 currentfile eexec 982db53daa467azz 99 "} {
 		pool = append(pool, input{"ps", []byte(p), "fixed program"})
 	}
+	// structured comments with %%+ continuations: the scanner looks three bytes ahead at every line start
+	for _, p := range []string{"%!PS-Adobe-3.0\n%%Title: Test\n%%+ Font\n1 2 add\n", "%%A: 1\n%%+ 2\n%%+ 3\n%%B: x\n%%+\n1\n", "%%A: 1\r%%+ 2\r\n%%+3\n% c\n%%%\n%%+ z\n2 3\n",
+		"1 2\n%%Key: v\n%+ no\n%%+ yes\n%%", "%%A: 1\n%%+ 2"} {
+		pool = append(pool, input{"ps", []byte(p), "DSC with continuation lines"})
+	}
 	for _, p := range []string{"xyz", "x", "", "%", "%!", "%!PS\n1 2", "%x", "% !", "%!\n>x"} {
 		pool = append(pool, input{"psc", []byte(p), "start check"})
 	}
@@ -381,6 +386,33 @@ func suiteSched(o *suiteOut, r *rng, tier string, n int) {
 			o.fail("C12", "feeding a program in several Execute calls split at token boundaries equals one call (DSC comments)", fmt.Sprintf("sched split-dsc %d %q", hi, parts), one[:min(len(one), 400)], many[:min(len(many), 400)])
 		}
 		o.count("split executions with DSC comments")
+	}
+	// CMap files fed in two or three calls, cut at any line boundary (in particular between `n begin...` and the
+	// matching `end...`: the entry count and the block state live in the interpreter between the calls)
+	for ci := 0; ci < 6; ci++ {
+		rr := newRng(r.next())
+		c := randCMap(rr)
+		data := string(c.render(newRng(3), "none"))
+		data = strings.ReplaceAll(data, " % c\n", "\n")
+		lines := strings.SplitAfter(data, "\n")
+		one := runsLine(o, 1000000, false, []string{data})
+		for cut := 1; cut < len(lines); cut++ {
+			if strings.HasPrefix(lines[cut], "%%") && !strings.HasSuffix(lines[cut-1], "\n") {
+				continue
+			}
+			if strings.HasPrefix(lines[cut], "%%+") {
+				continue
+			}
+			parts := []string{strings.Join(lines[:cut], ""), strings.Join(lines[cut:], "")}
+			if cut+3 < len(lines) && cut%3 == 0 {
+				parts = []string{strings.Join(lines[:cut], ""), strings.Join(lines[cut:cut+3], ""), strings.Join(lines[cut+3:], "")}
+			}
+			many := runsLine(o, 1000000, false, parts)
+			if one != many {
+				o.fail("C12", "feeding a CMap file in several Execute calls split at line boundaries equals one call", fmt.Sprintf("sched split-cmap %d %d", ci, cut), one[:min(len(one), 300)], many[:min(len(many), 300)])
+			}
+			o.count("CMap files split between calls")
+		}
 	}
 	// the parts concatenated as they are: what ends with each call - the scanner's column (a split in the middle of a
 	// line, before a comment), a pending %%+ continuation, and `stop`
@@ -562,6 +594,21 @@ func suiteFaults(o *suiteOut, r *rng, tier string, n int) {
 		for k := 0; k < 6; k++ {
 			g := randFont(newRng(r.next()), true)
 			ws = append(ws, wr{"font-pfa", func(w io.Writer) error { return g.Write(w, &type1.WriterOptions{Format: type1.FormatPFA}) }})
+		}
+		{
+			// one glyph whose charstring is longer than the writers' internal buffers (512 bytes)
+			lg := randFont(newRng(r.next()), true)
+			long := &type1.Glyph{WidthX: 500, Cmds: []type1.GlyphOp{{Op: type1.OpMoveTo, Args: []float64{0, 0}}}}
+			for k := 1; k <= 140+40*(i%3); k++ {
+				long.Cmds = append(long.Cmds, type1.GlyphOp{Op: type1.OpLineTo, Args: []float64{float64(3 * k), float64((k * 37) % 101)}})
+			}
+			long.Cmds = append(long.Cmds, type1.GlyphOp{Op: type1.OpClosePath})
+			lg.Glyphs["long"] = long
+			for _, ff := range allFormats {
+				ff := ff
+				ws = append(ws, wr{"longglyph-" + formatName(ff), func(w io.Writer) error { return lg.Write(w, &type1.WriterOptions{Format: ff}) }})
+			}
+			ws = append(ws, wr{"longglyph-pdf", func(w io.Writer) error { _, _, err := lg.WritePDF(w); return err }})
 		}
 		ws = append(ws, wr{"font-pdf", func(w io.Writer) error { _, _, err := f.WritePDF(w); return err }})
 		ws = append(ws, wr{"afm", func(w io.Writer) error { return m.Write(w) }})
